@@ -1155,8 +1155,11 @@ def r_supersede(ctx) -> RuleResult:
             continue
         gtxt = [("" if pol else "not ") + short(t, 40) for t, pol in k["pf_guards"] + k["callee_guards"]]
         conds.setdefault(k["key"], []).append(" and ".join(gtxt) or "always")
+        from ..concrete import UnknownValue
         try:
             ok_, why = established(k)
+        except UnknownValue:
+            ok_, why = False, "the condition depends on more than the kind of the line (its entries, other state)"
         except Unsupported as ex:
             raise AnalysisError(f"R-SUPERSEDE: cannot evaluate the condition under which `{k['key']}` is cleared ({ex})")
         if ok_:
